@@ -33,7 +33,7 @@ func init() {
 		Run:   c03Run,
 		Kinds: []core.Kind{core.ReplayOf("mw", c03Check)},
 		Rule: "every (tie vector, allocation) class with n1+n2 <= bound under each of 25 configurations of (MannWhitneyExactLimit, MannWhitneyTiesExactLimit) in {0,3,25,50,1e6}^2 so the same data goes through both methods; " +
-			"all permutations of both samples (n1+n2<=6); six strictly increasing maps; swap law; error cases (empty sides, constant data of sizes 1..8) in every configuration; " +
+			"all permutations of both samples (n1+n2<=6); six strictly increasing maps; swap law; zeros written with both signs; every pair of overlapping windows of the pooled series as aliased arguments; error cases (empty sides, constant data of sizes 1..8) in every configuration; " +
 			"a complete size family n1,n2 in {1,2,7,24,25,26,49,50,51,100,300,600} x data patterns at default limits. Non-trivial: result not an error and 0<U<n1*n2 or ties present.",
 		Technique: "bounded-exhaustive input x configuration enumeration of the real MannWhitneyUTest; exact permutation model in the exact branch, statement formula (exact rational variance, erfc) in the normal branch",
 		Assumptions: []string{
@@ -159,6 +159,9 @@ func c03Check(c *C03Case, r *core.Rec) {
 		return
 	case "map":
 		c03Map(c, r)
+		return
+	case "alias":
+		c03Alias(c, r)
 		return
 	}
 	n1, n2 := len(c.X1), len(c.X2)
@@ -347,6 +350,81 @@ func c03Map(c *C03Case, r *core.Rec) {
 	}
 }
 
+// signZeros returns copies of the samples in which zeros carry both signs:
+// sample 1's zeros negative and sample 2's positive when both have some,
+// alternating otherwise.
+func signZeros(x1, x2 []float64) (z1, z2 []float64) {
+	z1, z2 = append([]float64{}, x1...), append([]float64{}, x2...)
+	has := func(x []float64) bool {
+		for _, v := range x {
+			if v == 0 {
+				return true
+			}
+		}
+		return false
+	}
+	both := has(x1) && has(x2)
+	k := 0
+	for _, z := range [][]float64{z1, z2} {
+		for i, v := range z {
+			if v != 0 {
+				continue
+			}
+			if (both && &z[0] == &z1[0]) || (!both && k%2 == 0) {
+				z[i] = math.Copysign(0, -1)
+			} else {
+				z[i] = 0
+			}
+			k++
+		}
+	}
+	return
+}
+
+// c03Alias: X1 is a series; overlapping windows of it are passed as the two
+// samples. Results must be those of independent copies of the windows, bit for
+// bit, and the series must be left alone.
+func c03Alias(c *C03Case, r *core.Rec) {
+	series := withSpare(c.X1)
+	snap := snapFull(series)
+	N := len(series)
+	r.NT()
+	for a := 1; a <= N; a++ {
+		for b := 0; b < a && b < N; b++ { // windows [0:a] and [b:N] overlap on [b:a)
+			w1, w2 := series[0:a], series[b:N]
+			c1, c2 := append([]float64{}, w1...), append([]float64{}, w2...)
+			for _, alt := range c01Alts {
+				want, werr := stats.MannWhitneyUTest(c1, c2, alt)
+				for dir := 0; dir < 2; dir++ {
+					var got *stats.MannWhitneyUTestResult
+					var err error
+					if dir == 0 {
+						got, err = stats.MannWhitneyUTest(w1, w2, alt)
+					} else {
+						got, err = stats.MannWhitneyUTest(w2, w1, alt)
+						want, werr = stats.MannWhitneyUTest(c2, c1, alt)
+					}
+					r.Trans(2)
+					if !snap.same(series) {
+						r.Fail("alias-modified", "series %v modified by a call on windows [0:%d] and [%d:%d]", c.X1, a, b, N)
+						return
+					}
+					if err != werr {
+						r.Fail("alias-error", "windows [0:%d],[%d:%d] of %v: error %v, independent copies give %v", a, b, N, c.X1, err, werr)
+						continue
+					}
+					if err != nil {
+						continue
+					}
+					if got.U != want.U || math.Float64bits(got.P) != math.Float64bits(want.P) {
+						r.Fail("alias", "overlapping windows [0:%d],[%d:%d] of %v (dir %d) alt=%v: (U,P)=(%v,%v), independent copies give (%v,%v)", a, b, N, c.X1, dir, alt, got.U, got.P, want.U, want.P)
+					}
+				}
+			}
+		}
+	}
+}
+
 var c03Limits = []int{0, 3, 25, 50, 1000000}
 
 func c03Run(c *core.Ctx) {
@@ -390,6 +468,26 @@ func c03Run(c *core.Ctx) {
 						cs.X1, cs.X2, cs.EL, cs.TEL, cs.Mode = x1, x2, lim[0], lim[1], "map"
 						run()
 					}
+					// the lowest class is the value 0: write it with both signs (-0 == +0)
+					if T[0] >= 2 {
+						z1, z2 := signZeros(x1, x2)
+						for _, lim := range [][2]int{{50, 25}, {0, 0}, {3, 3}} {
+							cs.X1, cs.X2, cs.EL, cs.TEL, cs.Mode = z1, z2, lim[0], lim[1], ""
+							run()
+							if N <= permN {
+								cs.Mode = "perm"
+								run()
+							}
+						}
+					}
+					// aliased arguments: overlapping windows of one series
+					if N >= 3 {
+						series := append(append([]float64{}, x1...), x2...)
+						cs.X1, cs.X2, cs.EL, cs.TEL, cs.Mode = series, nil, 50, 25, "alias"
+						run()
+						cs.EL, cs.TEL = 0, 0
+						run()
+					}
 				})
 			}
 		})
@@ -413,6 +511,12 @@ func c03Run(c *core.Ctx) {
 							}
 							cs.X1, cs.X2, cs.EL, cs.TEL, cs.Mode = x1, x2, el, tel, ""
 							run()
+							if v == 0 && n1+n2 >= 2 {
+								// all pooled values equal, written as zeros of both signs
+								cs.X1, cs.X2 = signZeros(x1, x2)
+								run()
+								cs.X1, cs.X2 = x1, x2
+							}
 							if n1 == 0 || n2 == 0 {
 								// empty side with non-constant other side
 								for i := range x1 {
